@@ -105,7 +105,7 @@ impl Scenario for Full {
         // main-loop lag knob: how eagerly the consumer runs relative to the input
         let lag = *rng.pick(&[0u64, 1, 3, 10, 40]);
         let style = STYLES[((run / 8) % STYLES.len() as u64) as usize];
-        let p = TypistParams { style, actions: rng.range(4, if tier == Tier::Quick { 40 } else { 100 }) as usize, stratum: ((run % 3) as u8, ((run / 3) % 16) as u8) };
+        let p = TypistParams { style, actions: marathon(run, rng.range(4, if tier == Tier::Quick { 40 } else { 100 }) as usize), stratum: ((run % 3) as u8, ((run / 3) % 16) as u8) };
         let session = type_session(rng, &cfg, &p);
         let fault_limit = session.len() * 2 / 3;
         let mut path: u8 = rng.below(3) as u8; // 0 bit, 1 word, 2 byte
@@ -699,7 +699,7 @@ impl Scenario for Chaos {
         let mut cfg = Cfg::default();
         cfg.layout = (run % NLAYOUT_OBJS as u64) as u8;
         cfg.map = rng.bool();
-        let n = rng.range(20, if tier == Tier::Quick { 200 } else { 400 }) as usize;
+        let n = marathon(run, rng.range(20, if tier == Tier::Quick { 200 } else { 400 }) as usize);
         let mut ops: Vec<TOp> = Vec::new();
         let mut t = 0u64;
         let mut obj = rng.below(6) as u8;
